@@ -180,6 +180,8 @@ impl Cache {
         name: &DomainName,
         qtype: QueryType,
     ) -> Vec<ResourceRecord> {
+        #[cfg(feature = "resolved_verif")]
+        use self::verif_clock::Instant;
         let now = Instant::now();
         let mut rrs = Vec::new();
         match qtype {
@@ -330,6 +332,8 @@ impl<K1: Clone + Eq + Hash, K2: Copy + Eq + Hash, V: PartialEq> PartitionedCache
         &mut self,
         partition_key: &K1,
     ) -> Option<&HashMap<K2, Vec<(V, Instant)>>> {
+        #[cfg(feature = "resolved_verif")]
+        use self::verif_clock::Instant;
         if let Some(partition) = self.partitions.get_mut(partition_key) {
             partition.last_read = Instant::now();
             self.access_priority
@@ -349,6 +353,8 @@ impl<K1: Clone + Eq + Hash, K2: Copy + Eq + Hash, V: PartialEq> PartitionedCache
         partition_key: &K1,
         record_key: &K2,
     ) -> Option<&[(V, Instant)]> {
+        #[cfg(feature = "resolved_verif")]
+        use self::verif_clock::Instant;
         if let Some(partition) = self.partitions.get_mut(partition_key) {
             if let Some(tuples) = partition.records.get(record_key) {
                 partition.last_read = Instant::now();
@@ -364,6 +370,8 @@ impl<K1: Clone + Eq + Hash, K2: Copy + Eq + Hash, V: PartialEq> PartitionedCache
     /// Insert a record into the cache, or reset the expiry time if already
     /// present.
     pub fn upsert(&mut self, partition_key: K1, record_key: K2, value: V, ttl: Duration) {
+        #[cfg(feature = "resolved_verif")]
+        use self::verif_clock::Instant;
         let now = Instant::now();
         let expiry = now + ttl;
         let tuple = (value, expiry);
@@ -468,6 +476,8 @@ impl<K1: Clone + Eq + Hash, K2: Copy + Eq + Hash, V: PartialEq> PartitionedCache
     ///
     /// Returns the number of records removed.
     fn remove_expired_step(&mut self) -> usize {
+        #[cfg(feature = "resolved_verif")]
+        use self::verif_clock::Instant;
         if let Some((partition_key, Reverse(expiry))) = self.expiry_priority.pop() {
             let now = Instant::now();
 
@@ -534,6 +544,62 @@ impl<K1: Clone + Eq + Hash, K2: Copy + Eq + Hash, V: PartialEq> PartitionedCache
             }
         } else {
             0
+        }
+    }
+}
+
+/// Verification hook: a controllable clock for the cache.  The five functions
+/// in this module which call `Instant::now()` import this `Instant` in their
+/// body when the feature is on; it returns a real `std::time::Instant` equal to
+/// a fixed process-wide base plus a settable offset (per thread if set, else
+/// global if set), or the real time if neither is set.
+#[cfg(feature = "resolved_verif")]
+pub mod verif_clock {
+    use std::cell::Cell;
+    use std::sync::atomic::{AtomicBool, AtomicU64, Ordering};
+    use std::sync::OnceLock;
+    use std::time::{Duration, Instant as StdInstant};
+
+    static BASE: OnceLock<StdInstant> = OnceLock::new();
+    static GLOBAL_SET: AtomicBool = AtomicBool::new(false);
+    static GLOBAL_NANOS: AtomicU64 = AtomicU64::new(0);
+
+    thread_local! {
+        static THREAD_NANOS: Cell<Option<u64>> = const { Cell::new(None) };
+    }
+
+    pub struct Instant;
+
+    impl Instant {
+        #[allow(clippy::new_ret_no_self)]
+        pub fn now() -> StdInstant {
+            if let Some(nanos) = THREAD_NANOS.with(Cell::get) {
+                base() + Duration::from_nanos(nanos)
+            } else if GLOBAL_SET.load(Ordering::SeqCst) {
+                base() + Duration::from_nanos(GLOBAL_NANOS.load(Ordering::SeqCst))
+            } else {
+                StdInstant::now()
+            }
+        }
+    }
+
+    /// The instant which offset zero corresponds to.
+    pub fn base() -> StdInstant {
+        *BASE.get_or_init(StdInstant::now)
+    }
+
+    /// Set (or clear) the virtual time for this thread, in nanoseconds since `base()`.
+    pub fn set_thread_nanos(nanos: Option<u64>) {
+        THREAD_NANOS.with(|c| c.set(nanos));
+    }
+
+    /// Set (or clear) the process-wide virtual time, in nanoseconds since `base()`.
+    pub fn set_global_nanos(nanos: Option<u64>) {
+        if let Some(n) = nanos {
+            GLOBAL_NANOS.store(n, Ordering::SeqCst);
+            GLOBAL_SET.store(true, Ordering::SeqCst);
+        } else {
+            GLOBAL_SET.store(false, Ordering::SeqCst);
         }
     }
 }
